@@ -35,17 +35,33 @@ BOUNDS = {t: {"grids": [dict(shape=list(s), alphabet=[str(x) for x in al], dtype
               "neighbourhood": [4, 8]} for t, g in GRIDS.items()}
 
 
+def laid_out(a, layout):
+    """equal-valued copy of `a` in another memory layout: F = Fortran order, S = every second column of a wider C array,
+    R = reversed view along both axes (negative strides)."""
+    if layout == "F":
+        return np.asfortranarray(a.copy())
+    if layout == "S":
+        wide = np.full((a.shape[0], a.shape[1] * 2), 7, dtype=a.dtype)
+        wide[:, ::2] = a
+        return wide[:, ::2]
+    if layout == "R":
+        return np.ascontiguousarray(a[::-1, ::-1])[::-1, ::-1]
+    return a.copy()
+
+
 class RegionSpace(Space):
-    def __init__(self, shape, alphabet, dtype, margin=None, fill=0):
+    def __init__(self, shape, alphabet, dtype, margin=None, fill=0, layout="C"):
         """margin = (top, bottom, left, right) cells of `fill` around every enumerated raster: the implementation clamps its
         neighbour windows at the raster border, so the same pattern is also explored away from the border."""
         self.shape, self.alphabet, self.dtype = shape, alphabet, dtype
-        self.margin, self.fill = margin, fill
+        self.margin, self.fill, self.layout = margin, fill, layout
         self.name = "regions_%dx%d_%dletters_%s" % (shape[0], shape[1], len(alphabet), dtype)
         if any(x != x for x in alphabet):
             self.name += "_nan"
         if margin:
             self.name += "_margin%d%d%d%d_fill%s" % (margin + (fill,))
+        if layout != "C":
+            self.name += "_layout" + layout
         self.size = len(alphabet) ** (shape[0] * shape[1]) * 2
         self.weight = shape[0] * shape[1]
 
@@ -76,7 +92,7 @@ class RegionSpace(Space):
         attrs = {"res": (1.0, 2.0), "tag": "t"}
         for rank in range(lo, hi):
             a, conn = self.case(rank)
-            r = dataarray(a.copy(), ys, xs, dims=("lat", "lon"), attrs=attrs,
+            r = dataarray(laid_out(a, self.layout), ys, xs, dims=("lat", "lon"), attrs=attrs,
                           extra_coords={"band": 3, "tile": "t07", "row_id": (("lat",), np.arange(h) * 10)})
             res = self.regions(r, neighborhood=conn)
             o = np.asarray(res.values)
@@ -117,5 +133,16 @@ for _t in BOUNDS:
                                                fill=f) for s, al, dt, m, f in EMBEDDED[_t]]
 
 
+LAYOUTS = {
+    "quick": [((3, 3), (0, 1, 2), "f8", "F"), ((2, 6), (0, 1), "i8", "F"), ((3, 4), (0, 1), "f8", "S"), ((3, 3), (0, 1, NAN), "f8", "R"),
+              ((3, 4), (0, 1), "f4", "F")],
+    "thorough": [((3, 3), (0, 1, 2), "f8", "F"), ((2, 6), (0, 1), "i8", "F"), ((3, 4), (0, 1), "f8", "S"), ((3, 3), (0, 1, NAN), "f8", "R"),
+                 ((3, 4), (0, 1), "f4", "F"), ((4, 4), (0, 1), "f8", "F"), ((3, 4), (0, 1, NAN), "f8", "F"), ((4, 4), (0, 1), "i4", "S")],
+}
+for _t in BOUNDS:
+    BOUNDS[_t]["memory_layouts"] = [dict(shape=list(s), alphabet=[str(x) for x in al], dtype=dt, layout=lay) for s, al, dt, lay in LAYOUTS[_t]]
+
+
 def build(tier):
-    return [RegionSpace(s, al, dt) for s, al, dt in GRIDS[tier]] + [RegionSpace(s, al, dt, m, f) for s, al, dt, m, f in EMBEDDED[tier]]
+    return [RegionSpace(s, al, dt) for s, al, dt in GRIDS[tier]] + [RegionSpace(s, al, dt, m, f) for s, al, dt, m, f in EMBEDDED[tier]] + \
+        [RegionSpace(s, al, dt, layout=lay) for s, al, dt, lay in LAYOUTS[tier]]
